@@ -190,6 +190,16 @@ def run_lexical(case):
         ref, in_range = None, False
     if K.skip("C09-outside-python-range", not in_range, out):
         return out
+    if dt == "date" and ref is not None and ref[1] is not None:
+        # the recorded finding is that the offset is dropped from value and normal form; that the form is accepted as a date
+        # (no exception, not flagged ill-typed) is outside it and stays checked, for every offset XSD allows (up to 14:00)
+        lit = sut(Literal, lex, datatype=iri)
+        if is_err(lit):
+            out.fail(("literal-raises", dt, lit.kind), f"{lex!r}^^{dt}: {lit!r}")
+            return out
+        if lit.ill_typed:
+            out.fail(("valid-form-flagged-ill-typed", dt, "with-offset"), f"{lex!r}^^xsd:{dt} ill_typed={lit.ill_typed}")
+            return out
     if K.skip("C09-date-timezone-dropped", dt == "date" and ref is not None and ref[1] is not None, out):
         return out
     if K.skip("C09-negative-mixed-duration", dt == "duration" and ref is not None and ref[1] < 0 and ref[2] < 0, out):
